@@ -323,6 +323,7 @@ example :
   decide
 
 
+
 /-! ### Translator tie (rs2lean): kernel-checked equivalence between the definitions that
 `extract/rs2lean.py` regenerates from the CURRENT Rust source on every run
 (`RactorModel/Generated/*.lean`) and the hand-written model functions the theorems above are
@@ -398,6 +399,11 @@ theorem generated_drain_status_update_eq_model (enq : Except MessagingErr Unit) 
   simp only [ActorStatus.toNat, Admission.stStopping, Admission.stDraining, ne_eq, hs, not_false_eq_true,
     decide_true, Bool.true_and]
   by_cases h : status < 5 <;> simp [h]
+
+/-- the status test at the head of `send_message_unchecked` (pc `sStatus`) -/
+theorem generated_send_status_check_eq_model (enq : Except MessagingErr Unit) (status : ActorStatus) :
+    ActorProperties.send_rejects_status enq status = decide (status.toNat ≥ Admission.stDraining) := by
+  cases status <;> rfl
 
 theorem generated_status_discriminants :
     (ActorStatus.toNat .Draining, ActorStatus.toNat .Stopping, ActorStatus.toNat .Stopped)
@@ -503,6 +509,7 @@ end C07
 #print axioms C07.generated_send_drain_marker_eq_model
 #print axioms C07.generated_ticket_release_eq_model
 #print axioms C07.generated_drain_status_update_eq_model
+#print axioms C07.generated_send_status_check_eq_model
 #print axioms C07.generated_status_discriminants
 #print axioms C07.generated_admission_constants
 #print axioms C07.model_admit_load_follows_generated
